@@ -1,6 +1,8 @@
 import Flowjaxv.Driver.Tree
 import Flowjaxv.Model.Arr
 import Flowjaxv.Model.ArrGenBij
+import Flowjaxv.Model.JaxTrBij
+import Flowjaxv.Model.ArrExt
 /-!
 Driver ops for expression trees of ARRAY bijections (C08):
 
@@ -21,6 +23,10 @@ expr (prefix; shapes / sizes / positions are comma-separated ints, `-` = empty):
   RSH <shape> <inner> expr            Reshape
   EMB <w> <b> expr                    EmbedCondition with net c = tanh(w·c+b)
   CH <k> expr×k | INV expr            generated Chain / Invert over arrays
+  GSCAN <k> expr×k                    Scan over the stacked module whose slices are the k children: `atree` runs the methods
+                                      GENERATED from jax_transforms.py (`Gen/JaxTransforms.lean`), `atreeh` the hand model `ArrComb.scan`
+  GVMAP <cshape> <mapped:0|1> <k> expr×k   Vmap (node shape k :: cshape) of the per-slice children (all equal when the parameters are
+                                      broadcast, `mapped = 0`): generated `Vmap` methods / hand model `ArrComb.vmap`
 Every node gets its declared shape top-down (root: the op's `<shape>`; children of CAT: the shape with the child's size
 on the axis; of STK: `<childshape>`; of PAR: `<sub>`; of RSH: `<inner>`).
 -/
@@ -124,6 +130,24 @@ partial def parseATree (gen : Bool) (shape : List Nat) : List String → Except 
   | "INV" :: r => do
       let (n, r) ← parseATree gen shape r
       pure (⟨(Invert.mk n.bij).toBij, n.shape, n.cond⟩, r)
+  | "GSCAN" :: k :: r => do
+      let k ← parseNat k
+      let (ns, r) ← parseATrees gen (List.replicate k shape) k r []
+      if gen then
+        let g := JaxTr.scanOfLayers (ns.map (·.bij)) shape (anyCond ns)
+        pure (⟨g.toBij, GenJaxTr.Scan.shape g, GenJaxTr.Scan.cond_shape g⟩, r)
+      else pure (⟨ArrComb.scan (ns.map (·.bij)), shape, anyCond ns⟩, r)
+  | "GVMAP" :: cshape :: mapped :: k :: r => do
+      let cshape ← parseShape cshape
+      let k ← parseNat k
+      let (ns, r) ← parseATrees gen (List.replicate k cshape) k r []
+      if gen then
+        let some n0 := ns.head? | .error "GVMAP without children"
+        let g : JaxTr.Vmap Float Float :=
+          { bijection := ⟨liftCond n0, ns.map liftCond⟩, in_axes := (if mapped == "1" then some ⟨⟩ else none, 0, none),
+            axis_size := k, cond_shape := anyCond ns }
+        pure (⟨lowerCond g.toBij, GenJaxTr.Vmap.shape g, g.cond_shape⟩, r)
+      else pure (⟨ArrComb.vmap cshape (ns.map (·.bij)), k :: cshape, anyCond ns⟩, r)
   | t :: _ => .error s!"bad atree token {t}"
   | [] => .error "unexpected end of atree"
 
